@@ -930,8 +930,12 @@ impl Model {
                 if exact {
                     self.node_mut(t).mapref_exact = r;
                 }
-                let old_p = match (&inp.round_old, &n.kind) {
-                    (Cache::Known(o), MKind::MapRef(k)) => Some(proj(*k, o).clone()),
+                // the old value a map_ref compares with is the one handed up the chain: the stored
+                // value the chain's root had before this round, projected by every map_ref below
+                // (not what an intermediate map_ref last computed: under a cutoff that suppresses
+                // unequal values the root can have moved silently while the chain was unlinked)
+                let old_p = match &n.kind {
+                    MKind::MapRef(k) => self.old_handed_up(n.inputs[0]).map(|o| proj(*k, &o).clone()),
                     _ => None,
                 };
                 match (exact, old_p.clone(), new) {
@@ -968,6 +972,18 @@ impl Model {
                     CutKind::Never => Tri::Yes,
                     _ => Tri::Maybe,
                 },
+            },
+        }
+    }
+
+    /// the "old value" that node `t` hands to a map_ref parent when it reports a change
+    fn old_handed_up(&self, t: Tag) -> Option<Val> {
+        let n = self.node(t);
+        match &n.kind {
+            MKind::MapRef(k) => self.old_handed_up(n.inputs[0]).map(|o| proj(*k, &o).clone()),
+            _ => match &n.round_old {
+                Cache::Known(o) => Some(o.clone()),
+                _ => None,
             },
         }
     }
